@@ -60,6 +60,9 @@ constexpr parser p_rec(root, terms('x', ';', 'y'), nterms(root, list), rules(
     root(list, ';') >= _e1, root(error, ';') >= val(-1), list() >= val(0),
     list(list, 'x') >= [](int sum, skip){ return sum + 1; }));
 
+constexpr nterm<int> rl("rl");   // right recursion ending in an empty rule: the empty rule's value is created when the value stack is as deep as the input is long
+constexpr parser p_rl(rl, terms('x'), nterms(rl), rules(rl() >= val(0), rl('x', rl) >= [](skip, int n){ return n + 1; }));
+
 constexpr int to_int(std::string_view sv) { int sum = 0; for (auto c : sv) { sum = (sum * 10 + (c - '0')) % 1000000; } return sum; }
 constexpr char number_pattern[] = "[1-9][0-9]*"; constexpr regex_term<number_pattern> number("number");
 constexpr char word_pattern[] = "[a-z\\x80-\\xff]+"; constexpr regex_term<word_pattern> word("word");
@@ -149,6 +152,7 @@ int main(int argc, char** argv) {
         sweep("recovery-long", p_rec, std::string(d, 'x') + ";", d);
         sweep("recovery-long-error", p_rec, std::string(d, 'x') + "y" + std::string(d, 'x') + ";", -1);
         sweep("whitespace-only", p_rec, std::string(d, ' '), std::nullopt);
+        sweep("right-recursion-empty-tail", p_rl, std::string(d, 'x'), d);
         sweep("numbers-long-lexeme", p_num, std::string(d, '1'), to_int(std::string(d, '1')));
     }
     std::string esc; for (char c : g_first) { if (c == '"' || c == '\\') esc += '\\'; esc += c; }
